@@ -19,6 +19,7 @@ QUICK = {
     'io': ['plain', 'mode', 'defaults', 'required', 'alias'],
     'mode': ['mode', 'required'],
     'modereq': ['mode'],
+    'modeout': ['mode'],
     'final': ['plain'],
     'aliaserr': ['plain', 'alias'],
     'deps': ['plain', 'required', 'alias'],
@@ -31,7 +32,7 @@ QUICK = {
 
 
 def applicable(spec, group):
-    if group == 'mode' and spec not in ('mode', 'io', 'mix', 'modereq'):
+    if group == 'mode' and spec not in ('mode', 'io', 'mix', 'modereq', 'modeout'):
         return False
     if group == 'policy' and spec not in ('onerr', 'basic', 'mix'):
         return False
